@@ -37,7 +37,13 @@ func c02Operand(c *Ctx, k int, noLit ...bool) []c02Tok {
 	noLit0 := len(noLit) > 0 && noLit[0]
 	_ = noLit0
 	id := c02Idents[k%len(c02Idents)]
-	switch c.Rng.Intn(8) {
+	switch c.Rng.Intn(9) {
+	case 8:
+		// a number literal with a postfix index / call: a sign in front of it is still a prefix operator of the whole
+		if noLit0 {
+			return []c02Tok{{s: id}}
+		}
+		return []c02Tok{{s: c.Rng.Pick([]string{"5[0]", "7(1)", "12[1]"})}}
 	case 0:
 		if noLit0 {
 			return []c02Tok{{s: id}}
@@ -133,6 +139,15 @@ func genC02(c *Ctx) {
 		}
 		emit([]c02Tok{{s: p, prefix: true}, id("a"), id("if"), {s: p, prefix: true}, id("b"), id("else"), {s: p, prefix: true}, id("c")}, "prefix-if", true)
 		emit([]c02Tok{id("x"), id(":="), {s: p, prefix: true}, id("a"), id("=>"), id("y")}, "prefix-assign", true)
+		// a prefix operator in front of a number literal that carries an index / call: the operator applies to the whole
+		for _, lit := range []string{"5[0]", "7(1)", "12[1]"} {
+			emit([]c02Tok{{s: p, prefix: true}, id(lit)}, "prefix-literal-postfix", true)
+			emit([]c02Tok{id("a"), id("+"), {s: p, prefix: true}, id(lit)}, "prefix-literal-postfix", true)
+			emit([]c02Tok{{s: p, prefix: true}, id(lit), id("*"), id("b")}, "prefix-literal-postfix", true)
+			for _, ch := range c02Chains[:2] {
+				emit([]c02Tok{{s: p, prefix: true}, id(lit), {s: ch, chain: true}}, "prefix-literal-postfix", true)
+			}
+		}
 	}
 	misc := [][]string{
 		{"a", "if", "b", "if", "c"}, {"a", "if", "b", "if", "c", "else", "d"}, {"a", "if", "b", "else", "c", "if", "d"},
